@@ -406,9 +406,27 @@ type idxPkg struct{ name, typ string }
 
 // indexCase scans an inventory made of pkgs (half from the filesystem extractor, half from the
 // standalone one) and lets one detector query the index for every (name, type) of the alphabet.
-func indexCase(pkgs []idxPkg, failingStandalone bool) (key, detail string) {
+func indexCase(pkgs []idxPkg, failingStandalone bool, deco int) (key, detail string) {
+	nmk := deco
 	mk := func(d idxPkg) *extractor.Package {
-		return &extractor.Package{Name: d.name, Version: "1", Locations: []string{"f.pkg"}, Metadata: &metaT{d.typ}}
+		p := &extractor.Package{Name: d.name, Version: "1", Locations: []string{"f.pkg"}, Metadata: &metaT{d.typ}}
+		// every optional field of a package in turn: none of them decides whether the package is "extracted"
+		switch nmk % 7 {
+		case 1:
+			p.Annotations = []extractor.Annotation{extractor.Transitional}
+		case 2:
+			p.Annotations = []extractor.Annotation{extractor.InsideOSPackage}
+		case 3:
+			p.Annotations = []extractor.Annotation{extractor.InsideCacheDir, extractor.Transitional}
+		case 4:
+			p.SourceCode = &extractor.SourceCodeIdentifier{Repo: "https://example.com/r", Commit: "abc"}
+		case 5:
+			p.LayerDetails = &extractor.LayerDetails{Index: 1, DiffID: "d", Command: "c", InBaseImage: true}
+		case 6:
+			p.Locations = nil
+		}
+		nmk++
+		return p
 	}
 	fe := &fsEx{scankit.Ex{N: "fs-ex", Req: scankit.ReqBase("f.pkg"), Out: func(e *scankit.Ex, in *filesystem.ScanInput, _ []byte, _ error) (inventory.Inventory, error) {
 		var inv inventory.Inventory
@@ -527,11 +545,17 @@ func indexNames(r *ev.Run) {
 	cases = append(cases, all)
 	r.ParallelFor(len(cases), func(i int) {
 		for _, failing := range []bool{false, true} {
-			k, d := indexCase(cases[i], failing)
-			r.Evals.Add(1)
-			r.Nontrivial.Add(1)
-			if k != "" {
-				r.Violation(k, fmt.Sprintf("inventory %v (failing standalone extractor listed first: %v): %s", cases[i], failing, d), map[string]any{"index_inventory": fmt.Sprint(cases[i]), "failing_standalone": failing})
+			decos := []int{0}
+			if len(cases[i]) == 1 {
+				decos = []int{0, 1, 2, 3, 4, 5, 6} // a single package with each optional field set in turn
+			}
+			for _, deco := range decos {
+				k, d := indexCase(cases[i], failing, deco)
+				r.Evals.Add(1)
+				r.Nontrivial.Add(1)
+				if k != "" {
+					r.Violation(k, fmt.Sprintf("inventory %v (failing standalone extractor listed first: %v, optional-field variant %d): %s", cases[i], failing, deco, d), map[string]any{"index_inventory": fmt.Sprint(cases[i]), "failing_standalone": failing, "optional_field_variant": deco})
+				}
 			}
 		}
 	})
@@ -606,5 +630,5 @@ func main() {
 		r.Set(fmt.Sprintf("detector_lists_of_length_%d", pl.k), total)
 	}
 	indexNames(r)
-	r.Finish("every ordered list of 0..2 detectors over all 86 scripts (finding lists of length <=2 over {X/body1, X/body2 (other title), X/body1 with another nested CVSS score, Y/body1, no advisory, no advisory id} x {ok, error}) x all 16 inventories (2 packages from a filesystem extractor, 2 from a standalone extractor, one without PURL, two versions of one name); lists of 3 over the 14 short scripts (thorough: all 86 scripts x 3 inventories; lists of 4 over short scripts); for lists with >=2 findings and the empty/full inventory also with findings that all carry the same Extra text (differing only in target location, or identical); index lookups: every single package, every ordered pair of one type and the whole alphabet of 12 names (separators - _ . , case, scope, slash, space, non-ASCII) x 5 purl types, each queried by GetSpecific/GetAllOfType for every (name,type); real Scanner.Scan vs reference model of the detector run", complete)
+	r.Finish("every ordered list of 0..2 detectors over all 86 scripts (finding lists of length <=2 over {X/body1, X/body2 (other title), X/body1 with another nested CVSS score, Y/body1, no advisory, no advisory id} x {ok, error}) x all 16 inventories (2 packages from a filesystem extractor, 2 from a standalone extractor, one without PURL, two versions of one name); lists of 3 over the 14 short scripts (thorough: all 86 scripts x 3 inventories; lists of 4 over short scripts); for lists with >=2 findings and the empty/full inventory also with findings that all carry the same Extra text (differing only in target location, or identical); index lookups: every single package, every ordered pair of one type and the whole alphabet of 12 names (separators - _ . , case, scope, slash, space, non-ASCII) x 5 purl types (packages carry, in rotation, each annotation, a source-code identifier, layer details, no location), each queried by GetSpecific/GetAllOfType for every (name,type); real Scanner.Scan vs reference model of the detector run", complete)
 }
